@@ -182,6 +182,12 @@ func SweepModelsDSL(sizes []int) []Tagged {
 		out = append(out, SweepOperands(ref.Union, n, 0), SweepOperands(ref.Inter, n, 0),
 			SweepRelations(n), SweepTypes(n), SweepConditions(n), SweepParams(n), SweepRestrictions(n))
 	}
+	for _, n := range sizes {
+		if n <= 24 {
+			out = append(out, SweepDepth("right", n), SweepDepth("left", n), SweepDepth("alternating", n))
+		}
+		out = append(out, SweepEdgeConditions(n))
+	}
 	for _, l := range []int{64, 255, 256, 600, 1100} {
 		out = append(out, SweepLongNames(l))
 	}
@@ -307,7 +313,63 @@ func SweepModelsGraph(sizes []int) []Tagged {
 			SweepOperands(ref.Union, n, 0), SweepOperands(ref.Inter, n, n/2), SweepOperands(ref.Union, n, n-1),
 			SweepRelations(n), SweepTypes(n), SweepRestrictions(n),
 			SweepChain("userset", n), SweepChain("ttu", n), SweepChain("computed", n),
-			SweepParents(n), SweepPublic(n))
+			SweepParents(n), SweepPublic(n), SweepEdgeConditions(n))
+		if n <= 24 {
+			out = append(out, SweepDepth("right", n), SweepDepth("alternating", n))
+		}
 	}
 	return out
+}
+
+// SweepDepth: relation a is an operator tree nested n levels deep - to the right, to the left, or alternating sides - over the
+// three operators in rotation, with the direct assignment first on the outermost level (DSL order) and computed leaves.
+func SweepDepth(side string, n int) Tagged {
+	leaf := func(i int) *ref.Rewrite { return ref.C(fmt.Sprintf("x%d", i%3)) }
+	rw := ref.U(leaf(0), leaf(1))
+	for i := 1; i < n; i++ {
+		kind := []ref.Kind{ref.Inter, ref.Diff, ref.Union}[i%3]
+		left := side == "left" || (side == "alternating" && i%2 == 0)
+		var ch []*ref.Rewrite
+		if left {
+			ch = []*ref.Rewrite{rw, leaf(i + 1)}
+		} else {
+			ch = []*ref.Rewrite{leaf(i + 1), rw}
+		}
+		rw = &ref.Rewrite{Kind: kind, Ch: ch}
+	}
+	// outermost: the direct assignment first
+	rw = ref.U(ref.T(), rw)
+	doc := ref.TypeDef{Name: "doc", Rels: []ref.Relation{{Name: "a", Rw: rw, Restr: sweepUser()}}}
+	for i := 0; i < 3; i++ {
+		doc.Rels = append(doc.Rels, ref.Relation{Name: fmt.Sprintf("x%d", i), Rw: ref.T(), Restr: sweepUser()})
+	}
+	return Tagged{Tag: fmt.Sprintf("sweep: operators nested %d deep to the %s", n, side), M: &ref.Model{Schema: "1.1", Types: []ref.TypeDef{{Name: "user"}, doc}}}
+}
+
+// SweepEdgeConditions: one target under n different conditions and unconditioned (scrambled): one edge with n+1 conditions.
+func SweepEdgeConditions(n int) Tagged {
+	m := &ref.Model{Schema: "1.1"}
+	var rs []ref.Restriction
+	for i, x := range scramble(n) {
+		name := fmt.Sprintf("k%03d", x)
+		m.Conds = append(m.Conds, ref.Condition{Name: name, Params: []ref.Param{{Name: "x", Type: "int"}}, Expr: "x < 1"})
+		rs = append(rs, ref.Restriction{Type: "user", Condition: name})
+		if i == n/2 {
+			rs = append(rs, ref.Restriction{Type: "user"})
+		}
+	}
+	m.Types = []ref.TypeDef{{Name: "user"}, {Name: "doc", Rels: []ref.Relation{
+		{Name: "a", Rw: ref.T(), Restr: rs},
+		{Name: "b", Rw: ref.U(ref.T(), ref.C("a")), Restr: rs[:len(rs)/2]},
+	}}}
+	return Tagged{Tag: fmt.Sprintf("sweep: one target under %d conditions", n), M: m}
+}
+
+// SweepModules: n types, each in a module and file of its own, in scrambled order.
+func SweepModules(n int) Tagged {
+	m := &ref.Model{Schema: "1.2"}
+	for _, x := range scramble(n) {
+		m.Types = append(m.Types, ref.TypeDef{Name: fmt.Sprintf("t%03d", (x*3)%n), Module: fmt.Sprintf("m%03d", x), File: fmt.Sprintf("f%03d.fga", (x*5)%n)})
+	}
+	return Tagged{Tag: fmt.Sprintf("sweep: modular model with %d modules", n), M: m}
 }
